@@ -154,7 +154,7 @@ def check_criterion(rep, r, name, arity):
     links = [e for e in r.of('addc') if e.fam is not None and e.iters and set(lpfacts.obj_vars(e.fam)) & objvars and lpfacts.is_freeze(e.fam) is None]
     bad = [e for e in r.of('addc') if e.fam is None and e.iters]
     if bad:
-        rep.inconclusive('C03.R1', bad[0].where, 'the constraint linking the objective of %s is inside the recognised fragment' % cfg, got=bad[0].err, loc=bad[0].loc)
+        lpfacts.report_unnormalised(rep, 'C03.R1', bad[0], 'the constraint linking the objective of %s is inside the recognised fragment' % cfg, cfg)
         return
     refs, rq = reference_links(name, arity)
     refp = lp.RefParser()
